@@ -47,10 +47,14 @@ def run(ctx):
                 "enforced; schedules by preemption-bounded DFS, random and PCT walks; every execution validated by TLC against PoolObs.tla")
     ctx.assumptions += ["known finding (open): explicit integer work_queue_maxsize smaller than the number of workers with retiring workers"]
     # design level: exhaustive TLC runs of FunctorPool.tla and conformance of the real code with it
-    hconf = poolsim.Harness()
+    try:
+        hconf = poolsim.Harness()
+    except Exception:
+        hconf = None              # see run_family: controlled legs degrade, the exhaustive runs of the model still happen
     crnd = random.Random(ctx.seed * 7919 + 55)
     configs = [('C21', 1, 1, 0), ('C102u', 2, 2, 1)] if quick else [('C21', 1, 1, 0), ('C21', 2, 2, 0), ('C102u', 2, 2, 1), ('C22', 2, 2, 1), ('C22', 2, 1, 0)]
-    hconf.shared = hconf.learn(poolconf.scen_for("C2", 1, 1, 0, JUDGE), crnd)
+    if hconf is not None:
+        hconf.shared = hconf.learn(poolconf.scen_for("C2", 1, 1, 0, JUDGE), crnd)
     poolconf.design_legs(ctx, configs, ['CallOK', 'NoBad', 'NoLeftovers', 'NoDeadlock'], False, ['CallOK'], hconf, crnd, 30 if quick else 300, 30 if quick else 300, JUDGE)
     poolconf.factory_design_legs(ctx, quick, ['CallOK', 'NoBad', 'NoDeadlock'], 'stale', ['NoDeadlock'])
     rnd = random.Random(ctx.seed * 7919 + 103)
